@@ -133,10 +133,13 @@ def oracle(case, facts, details):
         for v in want:
             if not re.search(r"\b%s\b" % v, body):
                 fails.append("entry point %s does not forward `%s`: %s" % (name, v, body))
-        if ":: new ()" not in body:
-            fails.append("entry point %s does not build the contract with new(): %s" % (name, body))
-        if "map_err (Into :: into)" not in body:
-            fails.append("entry point %s does not convert the error: %s" % (name, body))
+        if not re.search(r":: new \(\)|:: default \(\)", body):
+            fails.append("entry point %s does not build the contract with its parameterless constructor: %s" % (name, body))
+        # the error conversion can be spelled in several equivalent ways; a body that spells it in none of the known ones is
+        # not evidence of a violation (it shows up as a disagreement with the model; behaviour is observed by C02 / C12 at L2)
+        conv = re.search(r"map_err \((?:Into :: into|From :: from|\| (\w+) \| \1 \. into \(\)|\| (\w+) \| (?:Into :: into|From :: from) \(\2\))\)|\? ;? ?\}? ?Ok \(", body)
+        if not conv and "map_err" not in body and "?" not in body:
+            fails.append("entry point %s returns the dispatch outcome without converting the error: %s" % (name, body))
         if not any("entry_point" in a for a in det["attrs"]):
             fails.append("entry point %s lacks the entry_point attribute" % name)
         if name != "reply":
